@@ -510,6 +510,44 @@ func checkHeaderVsData(p *Prog, r *Roles, a *allocInfo, res *Result) {
 						res.ok("C02-R4", construct, pos, why)
 						continue
 					}
+					// the header is raised inside a helper that is handed <resp>.Header: header.Revision =
+					// max(header.Revision, q) with q the helper's parameter for which the data revision is passed
+					raised := false
+					for _, c := range callsIn(f) {
+						g := c.Common().StaticCallee()
+						if g == nil || g.Blocks == nil || g.Pkg != bp || !(instrDominates(c.(ssa.Instruction), s) || resolve(s.Val) == c.Value()) {
+							continue
+						}
+						for ai, a := range c.Common().Args {
+							ld, ok := resolve(a).(*ssa.UnOp)
+							if !ok || ai >= len(g.Params) {
+								continue
+							}
+							hfa, ok := ld.X.(*ssa.FieldAddr)
+							if !ok || fieldOf(hfa) != hdrF || !isThis(hfa.X) {
+								continue
+							}
+							for _, st := range p.fields().stores[hdrRev] {
+								fa := st.Addr.(*ssa.FieldAddr)
+								if st.Parent() != g || resolve(fa.X) != ssa.Value(g.Params[ai]) {
+									continue
+								}
+								mc, ok := resolve(st.Val).(*ssa.Call)
+								if !ok || mc.Common().StaticCallee() == nil || !isMaxFn(mc.Common().StaticCallee()) {
+									continue
+								}
+								for _, ma := range mc.Common().Args {
+									if q, ok := resolve(ma).(*ssa.Parameter); ok && q.Parent() == g && paramIndex(q) < len(c.Common().Args) && sameVal(c.Common().Args[paramIndex(q)], d) {
+										raised = true
+									}
+								}
+							}
+						}
+					}
+					if raised {
+						res.ok("C02-R4", construct, pos, "the helper that builds the key-value raises the header it is handed to max(header, data revision)")
+						continue
+					}
 					// form (iii): h allocated by a call whose summary says the data was read before the allocation
 					if why, ok := allocatedAfterRead(p, a, h, d); ok {
 						res.ok("C02-R4", construct, pos, why)
